@@ -10,6 +10,9 @@ import ast
 from ..core import AnalysisError
 from ..core import RuleResult
 from ..core import norm
+from ..flow import BaseState
+from ..flow import Domain
+from ..flow import Interp
 from ..model import own_nodes
 
 HOOKS = {
@@ -116,53 +119,139 @@ def rule_siblings(model):
     return r
 
 
+class _GS(BaseState):
+    def __init__(self, keys=frozenset(), start=False):
+        self.keys = keys
+        self.start = start
+
+    def key(self):
+        return (self.keys, self.start)
+
+    def copy(self):
+        n = _GS(self.keys, self.start)
+        n.trace = self.trace
+        return n
+
+
+class _GroupDomain(Domain):
+    """Must-assigned match groups (keys stored through a subscript with a
+    constant key, and self._start)."""
+
+    def __init__(self, model, fi, summaries, analyse, depth):
+        self.model = model
+        self.fi = fi
+        self.summaries = summaries
+        self.analyse = analyse
+        self.depth = depth
+        self.returns = []      # (node, keys, start, via)
+
+    def raises(self, node, st):
+        return []
+
+    def _helper(self, call):
+        """summary (keys, start) of a same-class helper method call"""
+        if not (isinstance(call, ast.Call) and
+                isinstance(call.func, ast.Attribute) and
+                norm(call.func.value) == 'self' and
+                self.fi.cls is not None):
+            return None
+        h = self.fi.cls.methods.get(call.func.attr)
+        if h is None or h is self.fi or self.depth > 2:
+            return None
+        if h.where not in self.summaries:
+            self.summaries[h.where] = None
+            rets = self.analyse(h, self.depth + 1)
+            good = [(k, s_) for node, k, s_, via in rets]
+            if good:
+                keys = frozenset.intersection(*[k for k, _ in good])
+                self.summaries[h.where] = (keys, all(s_ for _, s_ in good),
+                                           h.name)
+        return self.summaries[h.where]
+
+    def effects(self, stmt, st):
+        keys, start = set(st.keys), st.start
+        for t in ast.walk(stmt):
+            if isinstance(t, ast.Subscript) and \
+                    isinstance(t.ctx, ast.Store) and \
+                    isinstance(t.slice, ast.Constant):
+                keys.add(t.slice.value)
+            if isinstance(t, ast.Attribute) and \
+                    isinstance(t.ctx, ast.Store) and t.attr == '_start':
+                start = True
+        if frozenset(keys) != st.keys or start != st.start:
+            st = st.copy()
+            st.keys, st.start = frozenset(keys), start
+        return st
+
+    def branch(self, test, st):
+        # if self.helper(...) [is not None]:  -> groups set on that branch
+        pos = True
+        e = test
+        if isinstance(e, ast.Compare) and len(e.ops) == 1 and \
+                isinstance(e.comparators[0], ast.Constant) and \
+                e.comparators[0].value is None:
+            pos = isinstance(e.ops[0], (ast.IsNot, ast.NotEq))
+            e = e.left
+        summ = self._helper(e)
+        if summ is None:
+            return [(True, st), (False, st)]
+        won = st.copy()
+        won.keys = st.keys | summ[0]
+        won.start = st.start or summ[1]
+        return [(pos, won), (not pos, st)]
+
+    def on_return(self, node, st):
+        v = node.value
+        if v is not None and norm(v) in ('self', 'True'):
+            self.returns.append((node, st.keys, st.start, None))
+        elif v is not None:
+            summ = self._helper(v)
+            if summ is not None:
+                self.returns.append((node, st.keys | summ[0],
+                                     st.start or summ[1], summ[2]))
+        return [], st
+
+
 def rule_groups(model):
     r = RuleResult('C07.R3', 'every return path of the SGML scanner defines '
                    'the groups the tag reader reads; the EPFS pattern names '
                    'the groups its reader reads')
     sc = model.func('DT_HTML', 'dtml_re_class.search')
     want = {0, 'end', 'name', 'args'}
-    # return self sites
+    # definite assignment of the match groups on every path to a
+    # `return self`, through helper methods of the scanner class
+    summaries = {}
+
+    def analyse(fi, depth=0):
+        dom = _GroupDomain(model, fi, summaries, analyse, depth)
+        Interp(dom).run(fi.node, _GS())
+        return dom.returns
+    rets = analyse(sc)
     n = 0
-    for ret in own_nodes(sc.node):
-        if isinstance(ret, ast.Return) and norm(ret.value) == 'self':
-            n += 1
-            # keys assigned in the same block before the return
-            blk = ret._dt_parent
-            lst = None
-            for fld in ('body', 'orelse'):
-                x = getattr(blk, fld, None)
-                if isinstance(x, list) and ret in x:
-                    lst = x
-            keys = set()
-            start = False
-            for st in lst[:lst.index(ret)]:
-                if not isinstance(st, (ast.Assign, ast.AugAssign,
-                                       ast.Expr)):
-                    continue
-                for t in ast.walk(st):
-                    if isinstance(t, ast.Subscript) and \
-                            isinstance(t.ctx, ast.Store) and \
-                            isinstance(t.slice, ast.Constant):
-                        keys.add(t.slice.value)
-                    if isinstance(t, ast.Attribute) and \
-                            isinstance(t.ctx, ast.Store) and \
-                            t.attr == '_start':
-                        start = True
-            r.instance(sc.where, f'return path defines {sorted(map(str, keys))}',
-                       'complete' if want <= keys and start else 'INCOMPLETE')
-            if not want <= keys:
-                r.finding(sc.where, f'keys {sorted(map(str, keys))}',
-                          'a scanner return path does not define '
-                          f'{sorted(map(str, want - keys))}: the reader sees '
-                          'the value of the previous match', node=ret,
-                          ctx=sc)
-            if not start:
-                r.finding(sc.where, 'self._start', 'a scanner return path '
-                          'does not record the match offset', node=ret,
-                          ctx=sc)
-    if n != 3:
-        raise AnalysisError(f'C07.R3: {n} scanner return paths (expected 3)')
+    seen = set()
+    for node, keys, start, via in rets:
+        k = (id(node), keys, start)
+        if k in seen:
+            continue
+        seen.add(k)
+        n += 1
+        r.instance(sc.where, f'return path defines '
+                   f'{sorted(map(str, keys))}' + (f' (via {via})' if via
+                                                  else ''),
+                   'complete' if want <= keys and start else 'INCOMPLETE')
+        if not want <= keys:
+            r.finding(sc.where, f'keys {sorted(map(str, keys))}',
+                      'a scanner return path does not define '
+                      f'{sorted(map(str, want - keys))}: the reader sees '
+                      'the value of the previous match', node=node,
+                      ctx=sc)
+        if not start:
+            r.finding(sc.where, 'self._start', 'a scanner return path '
+                      'does not record the match offset', node=node,
+                      ctx=sc)
+    if n < 2:
+        raise AnalysisError(f'C07.R3: {n} scanner return paths (expected '
+                            'at least 2)')
     rd = model.func('DT_HTML', 'HTML.parseTag')
     groups = None
     for c in own_nodes(rd.node):
@@ -206,7 +295,8 @@ def rule_entity(model):
                    '&dtml.m1.m2-name; is var name m1 m2; SGML tags carry '
                    "the plain 's' format")
     sc = model.func('DT_HTML', 'dtml_re_class.search')
-    names = [n for n in own_nodes(sc.node) if isinstance(n, ast.Assign)
+    names = [n for n in model.closure_nodes(sc)
+             if isinstance(n, ast.Assign)
              and any(isinstance(t, ast.Subscript) and
                      isinstance(t.slice, ast.Constant) and
                      t.slice.value == 'name' for t in n.targets)
@@ -216,9 +306,9 @@ def rule_entity(model):
         if a.value.value != 'var':
             r.finding(sc.where, a, 'an entity reference is not compiled as '
                       'a var tag', node=a, ctx=sc)
-    if len(names) != 2:
+    if not names:
         raise AnalysisError('entity branches not found')
-    ends = [n for n in own_nodes(sc.node) if isinstance(n, ast.Assign)
+    ends = [n for n in model.closure_nodes(sc) if isinstance(n, ast.Assign)
             and any(isinstance(t, ast.Subscript) and
                     isinstance(t.slice, ast.Constant) and
                     t.slice.value == 'end' for t in n.targets)
